@@ -6,16 +6,17 @@
 EXTENDS GenOutcome
 CONSTANTS NLines, LineLen
 VARIABLES op, phase, out
-Init == op \in Ops /\ phase = 1 /\ out = [kind |-> "run", located |-> FALSE, line |-> 0, col |-> 0, locs |-> <<>>, onpath |-> TRUE]
+Init == op \in Ops /\ phase = 1 /\ out = [kind |-> "run", located |-> FALSE, line |-> 0, col |-> 0, locs |-> <<>>, onpath |-> TRUE, onpathin |-> TRUE]
 Fail == /\ out.kind = "run" /\ op # "none"
-        /\ \E loc \in BOOLEAN, onp \in BOOLEAN, l \in 1..NLines, c \in 1..(LineLen + 1) :
-             /\ (op \in SelfOffending /\ loc) => onp
-             /\ out' = [kind |-> "err", located |-> loc, line |-> IF loc THEN l ELSE 0, col |-> IF loc THEN c ELSE 0, onpath |-> onp,
+        /\ \E loc \in BOOLEAN, onp \in BOOLEAN, onpin \in BOOLEAN, l \in 1..NLines, c \in 1..(LineLen + 1) :
+             /\ (op \in SelfOffending /\ loc) => (onp /\ onpin)
+             /\ (onpin => onp)
+             /\ out' = [kind |-> "err", located |-> loc, line |-> IF loc THEN l ELSE 0, col |-> IF loc THEN c ELSE 0, onpath |-> onp, onpathin |-> onpin,
                      locs |-> IF loc THEN <<[known |-> TRUE, line |-> l, col |-> c, nlines |-> NLines, linelen |-> LineLen, nodestart |-> TRUE]>> ELSE <<>>]
         /\ UNCHANGED <<op, phase>>
 Pass == /\ out.kind = "run"
         /\ IF phase < Len(Phases) THEN phase' = phase + 1 /\ out' = out
-           ELSE phase' = phase /\ out' = [kind |-> "ok", located |-> FALSE, line |-> 0, col |-> 0, locs |-> <<>>, onpath |-> TRUE]
+           ELSE phase' = phase /\ out' = [kind |-> "ok", located |-> FALSE, line |-> 0, col |-> 0, locs |-> <<>>, onpath |-> TRUE, onpathin |-> TRUE]
         /\ UNCHANGED op
 Next == Fail \/ Pass
 Doc == [nlines |-> NLines, linelen |-> LineLen]
